@@ -2,9 +2,10 @@
    the executable model SC.C04.Model, which the correspondence check ties to
    src/algorithm/sort/heap_select.rs, src/algorithm/neighbour/{linear_search,cover_tree}.rs and
    src/neighbors/*.rs.  Distances live in any type with a total preorder (`preorder ltb leb`). *)
-From Coq Require Import List Arith Bool Permutation.
-From SC Require Import C04.Model C04.Proofs_Heap C04.Proofs_Linear C04.Proofs_Cover.
+From Coq Require Import List Arith Bool Permutation Lia Reals Lra.
+From SC Require Import Base.Num C04.Model C04.Proofs_Heap C04.Proofs_Linear C04.Proofs_Cover C04.Proofs_Est.
 Import ListNotations.
+Local Close Scope R_scope.
 
 (* HeapSelection: after any non-empty add sequence `l` into a heap of capacity k >= 1 the array holds
    min(k,|l|) elements, they are the smallest so far (l splits into the array and a rest that is
@@ -67,6 +68,81 @@ Proof.
   exact (cover_radius_exact ltb leb plus PO PM dist pt q SY TR dzero r n root).
 Qed.
 
+
+(* CoverTree::find on EVERY well-formed tree: for 1 <= k <= n (all distances at most the MAX sentinel)
+   the result is a k-nearest set: exactly k entries, distinct true indices, true distances, and no
+   point left out is closer than a returned one (so the distances are the k smallest). *)
+Theorem C04_cover_find_exact :
+  forall (D : Type) (ltb leb : D -> D -> bool) (plus : D -> D -> D), preorder ltb leb ->
+  (forall a b c d, leb a b = true -> leb c d = true -> leb (plus a c) (plus b d) = true) ->
+  forall (P : Type) (dist : P -> P -> D) (pt : nat -> P) (q : P),
+  (forall a b, dist a b = dist b a) ->
+  (forall a b c, leb (dist a c) (plus (dist a b) (dist b c)) = true) ->
+  forall (dmax dzero : D) k n (root : ctree D), 1 <= k -> k <= n ->
+  wf_root leb (dpp dist pt) n root = true ->
+  (forall i, i < n -> leb (dq dist pt q i) dmax = true) ->
+  exists res, cover_find ltb leb plus dmax dzero (dq dist pt q) root n k = Some res /\
+              is_knn leb (dq dist pt q) n k res.
+Proof.
+  intros D ltb leb plus PO PM P dist pt q SY TR dmax dzero k n root Hk Hkn W Hmax.
+  exact (cover_find_exact ltb leb plus PO PM dist pt q SY TR dmax dzero k Hk n root W Hmax Hkn).
+Qed.
+
+(* parameter errors of the cover-tree queries: k = 0, k > n, r <= 0 *)
+Theorem C04_cover_param_errors :
+  forall (D : Type) (ltb leb : D -> D -> bool) (plus : D -> D -> D) (dmax dzero : D) (dq : nat -> D)
+         (root : ctree D) n,
+  (forall k, k = 0 \/ n < k -> cover_find ltb leb plus dmax dzero dq root n k = None) /\
+  (forall r, leb r dzero = true -> cover_find_radius leb plus dzero dq root r = None).
+Proof.
+  intros. split; intros.
+  - now apply cover_find_error.
+  - now apply cover_radius_error.
+Qed.
+
+
+(* KNNWeightFunction::calc_weights (over the reals): uniform weights are all 1; under distance
+   weighting an exact match (a zero distance) takes all the weight, otherwise weights are 1/d. *)
+Theorem C04_knn_weights : forall ds : list R,
+  calc_weights ROps Uniform ds = repeat 1%R (length ds) /\
+  (In 0%R ds -> calc_weights ROps DistanceW ds = map (fun e => if Req_EM_T e 0 then 1%R else 0%R) ds) /\
+  (~ In 0%R ds -> calc_weights ROps DistanceW ds = map (fun e => (1 / e)%R) ds).
+Proof.
+  intros ds. split; [apply weights_uniform|]. split; [apply weights_exact_match|apply weights_inverse].
+Qed.
+
+(* KNNRegressor::predict_for_row after the search: the prediction is the sum of target * weight / W
+   over the neighbour list, i.e. (W <> 0) the weighted mean of the neighbours' targets. *)
+Theorem C04_knn_regressor_mean : forall (y : list R) (w : weightfn) (sr : list (nat * R)),
+  let ws := calc_weights ROps w (map snd sr) in
+  let W := rsum ws in
+  reg_mean ROps y w sr =
+    rsum (map (fun rw : (nat * R) * R => (nth (fst (fst rw)) y 0 * (snd rw / W))%R) (combine sr ws)) /\
+  (W <> 0%R ->
+   (reg_mean ROps y w sr * W)%R =
+     rsum (map (fun rw : (nat * R) * R => (nth (fst (fst rw)) y 0 * snd rw)%R) (combine sr ws))).
+Proof. exact knn_regressor_mean. Qed.
+
+(* KNNClassifier::predict_for_row after the search: with non-negative distances and positive total
+   weight the predicted class index has maximal accumulated (normalised) weight among all classes:
+   it is a (weighted) plurality class of the neighbour list. *)
+Theorem C04_knn_classifier_vote : forall ncl (y : list nat) (w : weightfn) (sr : list (nat * R)),
+  let ws := calc_weights ROps w (map snd sr) in
+  let W := rsum ws in
+  (forall r, In r sr -> nth (fst r) y 0 < ncl) -> (forall r, In r sr -> (0 <= snd r)%R) -> (0 < W)%R ->
+  forall j, j < ncl ->
+  (score y W (combine sr ws) j <= score y W (combine sr ws) (clf_vote ROps ncl y w sr))%R.
+Proof. exact knn_classifier_vote. Qed.
+
+(* estimator parameter checks of fit: the classifier needs k >= 2, the regressor k >= 1, both |x| = |y| *)
+Theorem C04_knn_param_errors : forall x_n y_n k,
+  (clf_fit_ok x_n y_n k = true <-> (x_n = y_n /\ 2 <= k)) /\
+  (reg_fit_ok x_n y_n k = true <-> (x_n = y_n /\ 1 <= k)).
+Proof.
+  intros. unfold clf_fit_ok, reg_fit_ok. rewrite !andb_true_iff, !negb_true_iff, Nat.eqb_eq, Nat.leb_gt, Nat.ltb_ge.
+  split; split; intros [? ?]; split; auto; lia.
+Qed.
+
 (* the hypotheses are satisfiable: nat with <, <= is a preorder; a concrete run *)
 Example C04_nat_preorder : preorder Nat.ltb Nat.leb.
 Proof.
@@ -81,3 +157,33 @@ Proof. reflexivity. Qed.
 Example C04_heap_instance :
   hs_get (fold_left (hs_add Nat.ltb Nat.leb 0) [5; 1; 4; 2; 8; 3] (with_capacity 3)) = [3; 2; 1].
 Proof. reflexivity. Qed.
+
+(* a well-formed tree over the points 0,1,2 of the line with |a-b| (all hypotheses of the cover-tree
+   theorems hold for it), and the model's answers on it *)
+Definition C04_line (a b : nat) : nat := (a - b) + (b - a).
+Definition C04_tree : ctree nat :=
+  Node 0 2 [Node 0 0 []; Node 1 1 [Node 1 0 []; Node 2 0 []]].
+Example C04_cover_instance :
+  wf_root Nat.leb (dpp C04_line (fun i => i)) 3 C04_tree = true /\
+  cover_find Nat.ltb Nat.leb Nat.add 1000 0 (dq C04_line (fun i => i) 2) C04_tree 3 2 = Some [(1, 1); (2, 0)] /\
+  cover_find_radius Nat.leb Nat.add 0 (dq C04_line (fun i => i) 2) C04_tree 1 = Some [(1, 1); (2, 0)].
+Proof. repeat split; reflexivity. Qed.
+Example C04_line_metric :
+  (forall a b, C04_line a b = C04_line b a) /\
+  (forall a b c, Nat.leb (C04_line a c) (C04_line a b + C04_line b c) = true) /\
+  (forall a b c d, Nat.leb a b = true -> Nat.leb c d = true -> Nat.leb (a + c) (b + d) = true).
+Proof.
+  unfold C04_line. repeat split; intros.
+  - lia.
+  - apply Nat.leb_le. lia.
+  - apply Nat.leb_le in H, H0. apply Nat.leb_le. lia.
+Qed.
+
+(* estimators: a distance-weighted vote and mean with an exact match among the neighbours *)
+Example C04_estimator_instance :
+  calc_weights ROps DistanceW [2; 0; 4]%R = [0; 1; 0]%R /\
+  In 0%R [2; 0; 4]%R.
+Proof.
+  split; [|simpl; auto]. rewrite weights_exact_match by (simpl; auto). simpl.
+  repeat match goal with |- context [Req_EM_T ?a ?b] => destruct (Req_EM_T a b); try lra end; reflexivity.
+Qed.
